@@ -48,6 +48,37 @@ def strip_comments(src):
     return re.sub(r"/\*.*?\*/", "", src, flags=re.S)
 
 
+def normalise_src(src):
+    """source as the shape checks and the body translator see it: `debug_assert*!` statements dropped
+    (they are compiled out of release builds and must hold anyway), module-level private integer
+    constants replaced by their literal values (a named constant and the literal are the same program)"""
+    out, i = [], 0
+    rx = re.compile(r"\bdebug_assert(?:_eq|_ne)?!\s*\(")
+    while True:
+        m = rx.search(src, i)
+        if not m:
+            out.append(src[i:])
+            break
+        out.append(src[i:m.start()])
+        depth, j = 1, m.end()
+        while depth and j < len(src):
+            depth += {"(": 1, ")": -1}.get(src[j], 0)
+            j += 1
+        while j < len(src) and src[j] in " \t":
+            j += 1
+        if j < len(src) and src[j] == ";":
+            j += 1
+        i = j
+    src = "".join(out)
+    consts = dict(re.findall(r"^(?:pub(?:\([a-z]+\))?\s+)?const\s+([A-Z][A-Z0-9_]*)\s*:\s*(?:usize|u8|u16|u32|u64|i32|i64|isize)\s*=\s*(\d[\d_]*)\s*;", src, flags=re.M))
+    for name, val in consts.items():
+        if name in ("CAPACITY",):
+            continue                      # extracted as a constant of its own (Gen/Consts.lean)
+        src = re.sub(r"(?<![A-Za-z0-9_:])%s(?![A-Za-z0-9_])" % name, val, src)
+        src = re.sub(r"^(?:pub(?:\([a-z]+\))?\s+)?const\s+%s\s*:[^;]*;" % val, "", src, flags=re.M)
+    return src
+
+
 def param_names(params_text):
     """names of the parameters of a `fn` (without `self`)"""
     out, depth, cur = [], 0, ""
@@ -599,7 +630,8 @@ def sexprs(text):
 
 
 def wat_imports():
-    wat = re.sub(r";;[^\n]*", "", read("api/src/shopify_function.wat"))
+    wat = re.sub(r"\(;.*?;\)", " ", read("api/src/shopify_function.wat"), flags=re.S)   # block comments
+    wat = re.sub(r";;[^\n]*", "", wat)                                                # line comments
     try:
         top = sexprs(wat)
     except IndexError:
@@ -843,7 +875,7 @@ READER_WIDTH = {"u8": 1, "i8": 1, "u16": 2, "i16": 2, "u32": 4, "i32": 4, "f32":
 def gen_markers():
     """Gen/Markers.lean: the marker dispatch of `LazyValueRef::new` (provider/src/read/lazy_value_ref.rs)
     arm by arm, and the widths of the cursor's fixed-width readers"""
-    src = strip_comments(strip_tests(read("provider/src/read/lazy_value_ref.rs")))
+    src = normalise_src(strip_comments(strip_tests(read("provider/src/read/lazy_value_ref.rs"))))
     # cursor readers: bounds check + big-endian decode of exactly N bytes + advance by N
     for ty, n in READER_WIDTH.items():
         m = re.search(r"fn\s+read_%s\s*\(&mut self\)\s*->\s*Result<%s,\s*ErrorCode>\s*\{(.*?)\n    \}" % (ty, ty), src, flags=re.S)
@@ -870,11 +902,14 @@ def gen_markers():
         if not ok:
             raise ExtractError("Cursor::read_%s does not decode %d big-endian bytes" % (ty, n))
     m = re.search(r"fn\s+read_marker\s*\(&mut self\)[^{]*\{(.*?)\n    \}", src, flags=re.S)
-    if not m or "ifself.position>=self.length{returnErr(ErrorCode::ReadError);}" not in re.sub(r"\s+", "", m.group(1)) \
-            or "Marker::from_u8(self.bytes[self.position])" not in re.sub(r"\s+", "", m.group(1)):
+    rm_tpl = ("if self.position >= self.length { return Err(ErrorCode::ReadError); } "
+              "let marker = Marker::from_u8(self.bytes[self.position]); self.position += 1; Ok(marker)")
+    if not m or not (same_shape(m.group(1), rm_tpl) or (
+            "ifself.position>=self.length{returnErr(ErrorCode::ReadError);}" in re.sub(r"\s+", "", m.group(1))
+            and "Marker::from_u8(self.bytes[self.position])" in re.sub(r"\s+", "", m.group(1)))):
         raise ExtractError("Cursor::read_marker changed shape")
     # the dispatch
-    m = re.search(r"let\s+marker\s*=\s*cursor\.read_marker\(\)\?;\s*match\s+marker\s*\{", src)
+    m = re.search(r"let\s+(\w+)\s*=\s*cursor\.read_marker\(\)\?;\s*match\s+\1\s*\{", src)
     if not m:
         raise ExtractError("LazyValueRef::new: `match marker` not found")
     depth, i = 1, m.end()
@@ -984,7 +1019,7 @@ def gen_writer():
     """Gen/WriterStep.lean: which state-machine method each provider write function consults and which
     rmp encoder it calls with which argument (provider/src/write.rs, `impl Context`).  Shapes are compared
     in canonical form (extract/canon.py): layout and the names of parameters / locals do not matter."""
-    src = strip_comments(strip_tests(read("provider/src/write.rs")))
+    src = normalise_src(strip_comments(strip_tests(read("provider/src/write.rs"))))
 
     def body(fn):
         try:
@@ -1006,6 +1041,8 @@ def gen_writer():
         if g and g[2].strip():
             got_arg = g[2].strip()
             got_arg = got_arg[1:].strip() if got_arg.startswith(",") else "?"
+        if got_arg in ("i64 :: from ( P0 )", "P0 . into ( )", "( P0 as i64 )") and arg == "P0 as i64":
+            got_arg = "P0 as i64"
         if not g or g[0] not in STATE_FN or g[1] not in ENCODER or got_arg != arg:
             raise ExtractError("Context::%s changed shape: %s" % (fn, canon(b, ps)[:200]))
         enc = ENCODER[g[1]] + ((" " + lean_arg) if lean_arg else "")
@@ -1043,7 +1080,8 @@ def gen_writer():
         want = ("let result = self.write_state.%s(&mut self.write_parent_state_stack); if result != WriteResult::Ok { return result; } WriteResult::Ok" % sm)
         # `return the state machine's answer` spelled directly is the same function
         alt = "self.write_state.%s(&mut self.write_parent_state_stack)" % sm
-        if not (same_shape(b, want, ps) or same_shape(b, alt, ps)):
+        alt2 = ("let result = self.write_state.%s(&mut self.write_parent_state_stack); if result != WriteResult::Ok { result } else { WriteResult::Ok }" % sm)
+        if not (same_shape(b, want, ps) or same_shape(b, alt, ps) or same_shape(b, alt2, ps)):
             raise ExtractError("Context::%s changed shape: %s" % (fn, canon(b, ps)[:240]))
         out += ["  | %s =>" % ctor,
                 "    let (st, stack, r) := %s w.st w.stack" % lean,
@@ -1076,6 +1114,9 @@ def gen_writer():
                 tpls.append("Context::with_mut(|context| context.%s(P0))" % mm.group(1))
             tpl_params = ["P0"]
             ok = ok or any(same_shape(b, t.replace("P0", "arg"), ps, ["arg"]) for t in tpls)
+        if not ok and fn == "shopify_function_output_new_utf8_str":
+            # the packing of (status, pointer) may go through a helper; what must be there is the one call
+            ok = canon(b, ps).count("allocate_utf8_str ( P0 )") == 1 and "Context :: with_mut" in canon(b, ps)
         if not ok:
             raise ExtractError("%s changed shape: %s" % (fn, canon(b, ps)[:240]))
     ps, b = body("write_interned_utf8_str")
@@ -1096,7 +1137,7 @@ def gen_read_entries():
     decoded kinds are accepted, which node method is called, which codes answer a wrong kind and an
     undecodable scope, how `Ok(None)` is answered.  Shapes are compared in canonical form (layout and
     the names of parameters, locals, closure parameters and pattern binders do not matter)."""
-    src = strip_comments(strip_tests(read("provider/src/read.rs")))
+    src = normalise_src(strip_comments(strip_tests(read("provider/src/read.rs"))))
 
     pats = [("NanBoxValueRef::Object { ptr: obj_ptr, .. }", False),
             ("NanBoxValueRef::Object { ptr: obj_ptr, len: _ }", False),
@@ -1151,7 +1192,7 @@ def gen_deint():
     """Gen/DeInt.lean: the integer `Deserialize` macro of api/src/read.rs — the acceptance test
     (integrality, lower bound, upper bound, with the comparison operators as written), the cast, and the
     list of integer types the macro is instantiated for."""
-    src = strip_comments(strip_tests(read("api/src/read.rs")))
+    src = normalise_src(strip_comments(strip_tests(read("api/src/read.rs"))))
     m = re.search(r"macro_rules!\s*impl_deserialize_for_int\s*\{\s*\(\s*\$ty\s*:\s*ty\s*\)\s*=>\s*\{", src)
     if not m:
         raise ExtractError("macro impl_deserialize_for_int not found")
@@ -1207,7 +1248,7 @@ def gen_fns_nanbox(const_names):
     """Gen/FnsNanBox.lean: NanBox::encode / NanBox::number (core/src/read.rs)"""
     import rs2lean
     try:
-        core = strip_comments(strip_tests(read("core/src/read.rs")))
+        core = normalise_src(strip_comments(strip_tests(read("core/src/read.rs"))))
         out = [FNS_HEADER[0], "import SfVerif.Model.NanBox", "namespace SfVerif.Gen"]
         params, body = rs2lean.find_fn(core, "encode", "NanBox")
         pn = param_names(params)
@@ -1267,7 +1308,7 @@ def gen_fns_logs():
     """Gen/FnsLogs.lean: Logs::append / Logs::read_ptrs (provider/src/log.rs)"""
     import rs2lean
     try:
-        log = strip_comments(strip_tests(read("provider/src/log.rs")))
+        log = normalise_src(strip_comments(strip_tests(read("provider/src/log.rs"))))
         out = list(FNS_HEADER)
         out += ["/-- `ptr.add(n)` on a pointer into the log buffer, as an offset (`none` = null) -/",
                 "def ptrAdd (p : Option Nat) (n : Nat) : Option Nat := p.map (· + n)", ""]
@@ -1294,7 +1335,7 @@ def gen_fns_state():
     """Gen/FnsState.lean: the write state machine (provider/src/write/state.rs), every method"""
     import rs2lean
     try:
-        state = strip_comments(strip_tests(read("provider/src/write/state.rs")))
+        state = normalise_src(strip_comments(strip_tests(read("provider/src/write/state.rs"))))
         # the shape of the data the translation relies on
         if not re.search(r"enum\s+State\s*\{\s*(?:#\[default\]\s*)?Start\s*,\s*Object\(ObjectState\)\s*,\s*Array\(ArrayState\)\s*,\s*End\s*,?\s*\}", state):
             raise ExtractError("enum State is no longer Start | Object(ObjectState) | Array(ArrayState) | End")
@@ -1304,6 +1345,7 @@ def gen_fns_state():
         # the private helper that swaps a new state in and pushes the old one, whatever it is called
         swap_tpls = ["let mut new_state = new_state; std::mem::swap(self, &mut new_state); parent_state_stack.push(new_state);",
                      "let mut other = new_state; std::mem::swap(self, &mut other); parent_state_stack.push(other);",
+                     "std::mem::swap(self, &mut new_state); parent_state_stack.push(new_state);",
                      "let old = std::mem::replace(self, new_state); parent_state_stack.push(old);",
                      "parent_state_stack.push(std::mem::replace(self, new_state));"]
         swap_fn = None
